@@ -31,3 +31,30 @@ class GuardMonitor(Monitor):
 
     def totals(self):
         return dict(self.state)
+
+
+class PeakMonitor(Monitor):
+    """highest ap (top of the array region) and lowest fp on the committed timeline"""
+    name = 'peak'
+
+    def attach(self, vm):
+        self.vm = vm
+        st = {n: a for n, (s, a) in vm.p.labels.items() if s == 'state'}
+        self.ok = 'ap' in st and 'fp' in st
+        self.state = (0, 1 << 62)
+        if self.ok:
+            self.A_ap, self.A_fp = st['ap'], st['fp']
+            self.base = st['stack_start']
+            vm.watch_words.setdefault(self.A_ap, []).append(self)
+            vm.watch_words.setdefault(self.A_fp, []).append(self)
+
+    def on_word_write(self, addr, old, new):
+        hi, lo = self.state
+        if addr == self.A_ap:
+            if new > hi:
+                self.state = (new, lo)
+        elif new < lo:
+            self.state = (hi, new)
+
+    def peak_array_bytes(self):
+        return max(0, self.state[0] - self.base) if self.ok else None
